@@ -84,8 +84,10 @@ def rule_validation_pipeline(ctx, P, r):
             return None
         checks = [
             ('instance found', lambda t: t[0] == 'ne' and 'get_by_desc' in t[1] + t[2] and 'null' in (t[1], t[2])),
-            ('native-order header (get_libec_version == 0)', lambda t: t[0] == 'eq' and '@get_libec_version(' in t[1] and t[2] == '0'),
-            ('version <= LIBERASURECODE_VERSION', lambda t: t[0] in ('ule', 'ult') and t[1].startswith('*local') and const_of(t[2]) is not None),
+            ('native-order header (get_libec_version == 0)', lambda t: t[0] == 'eq' and (('@get_libec_version(' in t[1] and t[2] == '0') or
+                                                                                        (strip_ext(t[1]).endswith('.magic') and const_of(t[2]) == 0x0b0c5ecc))),
+            ('version <= LIBERASURECODE_VERSION', lambda t: t[0] in ('ule', 'ult') and (t[1].startswith('*local') or strip_ext(t[1]).endswith('.libec_version'))
+                                                            and const_of(t[2]) is not None),
             ('metadata query == 0', lambda t: t[0] == 'eq' and '@liberasurecode_get_fragment_metadata(' in t[1] and t[2] == '0'),
             ('metadata verdict == 0', lambda t: t[0] == 'eq' and '@is_invalid_fragment_metadata(' in t[1] and t[2] == '0'),
         ]
